@@ -435,7 +435,9 @@ impl Sim {
     }
 
     fn try_accept_drain(&mut self, ep: &mut Ep) {
-        loop {
+        // bounded: a stack that hands the same connection out again and
+        // again must end in "accept-duplicate", not in an endless loop
+        for _ in 0..16 {
             let Some((l, _)) = self.listener.as_ref() else {
                 return;
             };
